@@ -64,6 +64,7 @@ impl Prop for C09 {
             reopen: 0,
             rebuild: 0,
             extra: 0,
+            pressure: 0,
         };
         let cfg = EvCfg {
             authors: 3,
@@ -190,7 +191,7 @@ impl Prop for C09 {
                             return out;
                         }
                     }
-                } else if e.kind != 5 && !k.is_ephemeral() && step.res.is_ok() {
+                } else if e.kind != 5 && !kind_is_ephemeral(e.kind) && step.res.is_ok() {
                     let mut expect = r_before.clone();
                     let _ = expect.insert(*i);
                     if r_after != expect {
@@ -236,7 +237,7 @@ impl Prop for C09 {
                 let st = w.st();
                 let pa = Addr { kind: Kind::from_u16(addr.0), author: Pubkey::from_bytes(arr32(&addr.1)), d: addr.2.as_bytes().to_vec() };
                 let found = guard("find_*replaceable_event", || {
-                    if pa.kind.is_replaceable() {
+                    if kind_is_replaceable(addr.0) {
                         st.find_replaceable_event(pa.author, pa.kind).map(|o| o.map(|e| hex(e.id().as_slice())))
                     } else {
                         st.find_parameterized_replaceable_event(&pa).map(|o| o.map(|e| hex(e.id().as_slice())))
@@ -264,7 +265,7 @@ impl Prop for C09 {
                 }
                 // author+kind(+#d) query returns exactly the holder among events of that address
                 let mut f = MFilter { authors: vec![addr.1.clone()], kinds: vec![addr.0], ..Default::default() };
-                if pa.kind.is_parameterized_replaceable() {
+                if kind_is_param_replaceable(addr.0) {
                     f.tags = vec![("d".to_string(), vec![addr.2.clone()])];
                 }
                 match w.query(&f) {
